@@ -149,6 +149,17 @@ def norm_layer_outcome(got, imp, im):
     return ("FAIL", real, sorted(miss))
 
 
+def _layer_outcome(layers, spec, seed, ev, im):
+    """Define the layers, build the rule, evaluate: a definition or rule that is rejected is an
+    outcome like any other (it must be rejected under every renaming or under none)."""
+    try:
+        la = mk_layered_architecture(c05.layer_defs(layers, "names"), seed)
+        rule = mk_layer_rule(la, spec, seed)
+    except Exception as e:  # noqa: BLE001
+        return ("ERR-while-defining", type(e).__name__)
+    return norm_layer_outcome(run_rule(rule, ev), spec["imp"], im)
+
+
 def layers_part(ns, I, seed, res, only=None):
     viol = []
     ev0 = build(ns, I, seed)
@@ -163,12 +174,10 @@ def layers_part(ns, I, seed, res, only=None):
         for spec in specs:
             if only is not None and only != [layers, spec]:
                 continue
-            la = mk_layered_architecture(c05.layer_defs(layers, "names"), seed)
-            base = norm_layer_outcome(run_rule(mk_layer_rule(la, spec, seed), ev0), spec["imp"], {})
+            base = _layer_outcome(layers, spec, seed, ev0, {})
             for rn, (m, ns2, ev2) in evs.items():
                 layers2 = {l: [rename(x, m) for x in ms] for l, ms in layers.items()}
-                la2 = mk_layered_architecture(c05.layer_defs(layers2, "names"), seed)
-                got = norm_layer_outcome(run_rule(mk_layer_rule(la2, spec, seed), ev2), spec["imp"], inv(m))
+                got = _layer_outcome(layers2, spec, seed, ev2, inv(m))
                 if res is not None:
                     res.transitions += 2
                     res.evaluations += 1
